@@ -153,6 +153,11 @@ func runCheck(repo, verif, prop, tier string, timeout, par int, keep bool) int {
 			pats = append(pats, "./x/"+m, "./x/"+m+"/keeper")
 		}
 	}
+	if prop == "C06" {
+		for _, m := range append(append([]string{}, customModules...), "jklmint") {
+			pats = append(pats, "./x/"+m, "./x/"+m+"/keeper", "./x/"+m+"/types")
+		}
+	}
 	for _, rule := range writerRules[prop] {
 		for _, rel := range rule.Pkgs {
 			pats = append(pats, "./"+rel)
@@ -196,6 +201,9 @@ func runCheck(repo, verif, prop, tier string, timeout, par int, keep bool) int {
 	}
 	if prop == "C19" {
 		results = append(results, w.structuralC19())
+	}
+	if prop == "C06" {
+		results = append(results, w.structuralC06())
 	}
 	if r := w.structuralWriters(prop); r != nil {
 		results = append(results, r)
